@@ -250,8 +250,8 @@ def obs_serial(c: Ctx, enc, *, props, quick=True, salt=0, tmpdir=None):
                         d = fl.data_index(it["data"])
                     if not isinstance(it["data"], str):
                         raise TypeError("data is not the string form")
-                    xid = fl.model_did(it["data_id"]) if "data_id" in it else 0
-                    extra = set(it) - {"data", "data_id", "children", "name", "rank"}
+                    xid = fl.model_did(it["data_id"]) if "data_id" in it else (fl.model_did(it["guid"]) if "guid" in it else 0)
+                    extra = set(it) - {"data", "data_id", "children", "name", "rank", "guid"}
                     if extra:
                         raise TypeError(f"unexpected keys {extra}")
                     if "children" in it and not it["children"]:
@@ -263,6 +263,20 @@ def obs_serial(c: Ctx, enc, *, props, quick=True, salt=0, tmpdir=None):
         # serialize mapper style: mutate-and-return vs. returning a new dict (both documented)
         ser = (ser_mapper if salt % 2 == 0 else (lambda node, data: ser_mapper(node, dict(data)))) if is_item else None
         deser = (lambda parent, item: Item(item["name"], item["rank"])) if is_item else None
+        relocate = is_item and salt % 3 == 0
+        if relocate:
+            # an inverse mapper pair that keeps the id under a domain key: the serialiser moves data_id to 'guid',
+            # the deserialiser restores it by setting item['data_id'] ("mapper may add item['data_id']")
+            def ser(node, data):   # noqa: F811
+                data = ser_mapper(node, dict(data))
+                if "data_id" in data:
+                    data["guid"] = data.pop("data_id")
+                return data
+
+            def deser(parent, item):   # noqa: F811
+                if "guid" in item:
+                    item["data_id"] = item["guid"]
+                return Item(item["name"], item["rank"])
         for via in ("plain", "json"):
             def get(via=via):
                 dl = c.b.tree.to_dict_list(mapper=ser)
